@@ -35,10 +35,16 @@ RULE = ('scenes of 1-12 blends of 2-4 elliptical Gaussians + isolated + sub-2*np
         '{0,1e-3,0.1,0.5,1,log-uniform}, 3 modes, connectivity 4/8, relabel T/F, labels= in 9 representations. '
         'Each case: refinement oracle on nproc=1, then every chosen completion order (all n! for n<=4 tasks, else '
         'identity/reverse/rotation/4 seeded random) through the pickling virtual pool compared bit-for-bit with '
-        'nproc=1. non-trivial = at least one parent was split into >=2 children; distinct by digest of '
+        'nproc=1. Class degenerate crosses every early-exit path (no candidate: all small / huge npixels / labels= '
+        'subset of small sources / labels=[]; exactly one candidate; candidates that split into nothing: contrast~1, '
+        'nlevels=1, flat sources; contrast=1; label-less image) with input labels consecutive / with holes / '
+        'increasing / permuted / shifted and relabel T/F; 20 % of the other classes also get gapped labels. '
+        'non-trivial = at least one parent was split into >=2 children, or nothing was split but the input labels '
+        'are not 1..N and contrast != 1 (the 1..N / label-kept clauses are then not vacuous); distinct by digest of '
         '(data, input label array, arguments)')
 CLASSES = ['blend', 'sched_small', 'sched_many', 'flat', 'nonpos', 'subset', 'gaps', 'levels', 'contrast',
-           'tiny', 'masked', 'hostile', 'dtype', 'merged', 'finder', 'redeblend', 'nmarkers', 'history']
+           'tiny', 'masked', 'hostile', 'dtype', 'merged', 'finder', 'redeblend', 'nmarkers', 'history', 'degenerate',
+           'degenerate']    # listed twice on purpose: two slots of the round-robin
 MUST_REACH = ['photutils.segmentation.deblend:deblend_sources',
               'photutils.segmentation.deblend:_deblend_source',
               'photutils.segmentation.deblend:_SingleSourceDeblender.deblend_source',
@@ -89,7 +95,9 @@ def build_inputs(rng, cls):
         return None
     facts = dict(sc['flags'])
     fresh = bool(rng.random() < 0.5)
-    if sc['post']:
+    if facts.get('degenerate') == 'empty_image':
+        seg = SegmentationImage(np.zeros_like(seg0.data))    # e.g. what remove_labels(all labels) leaves
+    elif sc['post']:
         arr, pf = gen.apply_post(rng, seg0.data, sc['post'])
         facts.update(pf)
         if not arr.any():
@@ -103,10 +111,15 @@ def build_inputs(rng, cls):
     labs = np.asarray(seg.labels)
     areas = np.array([int(np.count_nonzero(seg.data == v)) for v in labs])
     labels_arg, req = gen.draw_labels(rng, sc['labels'], labs, areas, kw['npixels'])
+    labels_kind = sc['labels']
+    if 'degenerate' in facts:
+        kw, larg, lreq = gen.degenerate_args(rng, facts['degenerate'], labs, areas, kw)
+        if not isinstance(larg, str):
+            labels_arg, req, labels_kind = larg, lreq, 'degenerate:' + type(larg).__name__
     quantity = bool(rng.random() < 0.06) and data.dtype.kind == 'f'
     return dict(data=data, seg=seg, kw=kw, labels_arg=labels_arg, requested=req, conn=sc['conn'],
                 thr=sc['thr'], mask=sc['mask'], npix_det=sc['npix_det'], facts=facts,
-                labels_kind=sc['labels'], layout=sc['layout'], quantity=quantity,
+                labels_kind=labels_kind, layout=sc['layout'], quantity=quantity,
                 n_eligible=int(np.count_nonzero(areas[np.isin(labs, req)] >= 2 * kw['npixels'])),
                 areas=dict(zip(labs.tolist(), areas.tolist())))
 
@@ -167,9 +180,18 @@ def run_case(case):
     mech = {'cls': case.cls, 'relabel': kw['relabel'], 'seg_dtype': str(S.dtype)}
     if b['labels_kind']:
         mech['labels_arg'] = b['labels_kind']
-    for k in ('hostile_kind', 'nonpos_kind', 'flat_kind'):
+    for k in ('hostile_kind', 'nonpos_kind', 'flat_kind', 'degenerate'):
         if k in b['facts']:
             mech[k] = b['facts'][k]
+    # degenerate control-flow paths x output-normalisation situations actually hit (evidence counters)
+    labs_in = [int(v) for v in np.asarray(seg.labels).tolist()]
+    consecutive = labs_in == list(range(1, len(labs_in) + 1))
+    ncand = b['n_eligible']
+    if ncand <= 1 and kw['contrast'] != 1:
+        tag = 'cases_%d_candidate%s' % (ncand, '' if ncand == 1 else 's')
+        case.note(tag)
+        case.note('%s_%s_relabel_%s' % (tag, 'consecutive_in' if consecutive else 'nonconsecutive_in',
+                                        kw['relabel']))
     if case.cls == 'dtype':
         mech['label_overflow'] = _would_overflow(b)
     before = _input_state(b)
@@ -183,16 +205,16 @@ def run_case(case):
             case.note('merged_rejected_as_documented')
             case.check(_input_state(b) == before, 'inputs_unchanged', mech)
             return
-        if case.cls != 'dtype' or core.exc_location(exc) is None:
+        if case.cls not in ('dtype', 'degenerate') or core.exc_location(exc) is None:
             raise
         out1 = exc
     except (IndexError, TypeError, OverflowError) as exc:
-        if case.cls != 'dtype' or core.exc_location(exc) is None:
+        if case.cls not in ('dtype', 'degenerate') or core.exc_location(exc) is None:
             raise
         out1 = exc
     if isinstance(out1, Exception):
-        # the library raised on a valid integer label array: a violation like any other 'raised', but recorded
-        # here so that its mechanism carries the dtype facts (seg_dtype, label_overflow)
+        # the library raised on a valid input: a violation like any other 'raised', but recorded here so
+        # that its mechanism carries the structural facts (seg_dtype, label_overflow, degenerate kind)
         case.check(False, 'raised', dict(mech, **core.exc_mech(out1)), msg=str(out1)[:300])
         case.check(_input_state(b) == before, 'inputs_unchanged', mech)
         return
@@ -203,7 +225,11 @@ def run_case(case):
         dl_map=out1.deblended_labels_map, out_labels=out1.labels)
     for what, ok, detail in rep:
         case.check(ok, what, mech, **detail)
-    case.nontrivial = facts.get('n_split', 0) >= 1
+    case.nontrivial = facts.get('n_split', 0) >= 1 or (not consecutive and not c1 and len(labs_in) > 0)
+    if facts.get('n_split', 0) == 0 and ncand >= 1 and not c1:
+        case.note('cases_candidates_but_no_split')
+        case.note('cases_candidates_but_no_split_%s_relabel_%s'
+                  % ('consecutive_in' if consecutive else 'nonconsecutive_in', kw['relabel']))
     case.note('parents_split', facts.get('n_split', 0))
     case.note('children', facts.get('n_children', 0))
     after = _input_state(b)
